@@ -491,6 +491,9 @@ func c11cmp(req, impl, model string) bool {
 	}
 	pairs := strings.TrimSpace(model[:i])
 	flags := model[i:]
+	if c11skipped != nil && strings.HasSuffix(req, " 0") {
+		c11skipped("model-guards:" + flags)
+	}
 	if strings.Contains(flags, "amb=1") {
 		if c11skipped != nil {
 			c11skipped("outside-model:ambiguous-unique-ids")
